@@ -46,7 +46,7 @@ pub fn cfg(
         dim,
         index: 0,
         ids: default_ids(n_ids),
-        menu: universe(dim, n_ids),
+        menu: if metric.is_bq() && dim >= 33 { crate::hist::universe_signs(dim, n_ids) } else { universe(dim, n_ids) },
         builds,
         ops_per_round,
         allow_clear: true,
